@@ -94,8 +94,8 @@ META = {
     },
     "C04": {
         "level": "exploration",
-        "evaluations": ["recordings", "example_pairs", "check_pairs"],
-        "required": ["recordings", "example_pairs", "check_pairs", "prune_replays_with_removed_bits", "recordings_with_rejected_attempts", "digest_keys_seen_in_2_processes"],
+        "evaluations": ["recordings", "example_pairs", "check_pairs", "history_pairs"],
+        "required": ["recordings", "example_pairs", "check_pairs", "history_pairs", "long_repeat_programs", "prune_replays_with_removed_bits", "recordings_with_rejected_attempts", "digest_keys_seen_in_2_processes"],
         "show": ["recordings", "prune_replays_judged", "prune_replays_with_removed_bits", "example_pairs", "check_pairs", "digest_keys_seen_in_2_processes"],
         "rule": "rejection-heavy random programs x 20 seeds each: record (recording PRNG stream) -> same seed again -> replay as recorded -> "
                 "prune (real prune() vs reference prune) -> replay pruned, comparing draws and verdict; Example(seed) pairs; whole Checks with a "
